@@ -1120,6 +1120,17 @@ fn main() {
     runner::quiet_panics();
     let code = match args.first().map(|s| s.as_str()) {
         Some("replay") => run_replay(&cfg, args.get(1).map(|s| s.as_str()).unwrap_or("")),
+        // debug aid: execute one session of the seeded sweep on the main thread, plan printed first
+        Some("session") => {
+            let i: u64 = args.get(1).and_then(|s| s.parse().ok()).unwrap_or(0);
+            let mut rng = Rng::for_run(cfg.seed, SC_SESSION, i);
+            let idx = (i % n_decls() as u64) as usize;
+            let session = with_decl(idx, BuildSession { rng: &mut rng });
+            println!("{}", serde_json::to_string(&session).unwrap());
+            let out = with_decl(idx, ExecSession { s: &session });
+            println!("gets={} violations={:?}", out.gets, out.violations);
+            0
+        }
         Some("tracehash") => {
             let n: u64 = args.get(1).and_then(|s| s.parse().ok()).unwrap_or(4096);
             let mut h = Fnv::default();
